@@ -157,6 +157,10 @@ func LoadRuleOfResource(res string, rule *Rule) (bool, error) {
 	defer updateRuleMux.Unlock()
 	// clear resource rule
 	if rule == nil {
+		if _, exists := currentRules[res]; !exists {
+			// nothing is loaded for the resource: clearing it again is not a change
+			return false, nil
+		}
 		delete(currentRules, res)
 		updateMux.Lock()
 		delete(nodeBreakers, res)
